@@ -1,5 +1,6 @@
 import XpmVerif.Basic.JsonUtil
 import XpmVerif.Model.Specs
+import XpmVerif.Model.SpecsParse
 /-! Line-protocol driver for M8 (C18).  `lake env lean --run Drive/C18.lean < ops.jsonl` -/
 open Lean XpmVerif XpmVerif.J XpmVerif.Specs
 
@@ -25,6 +26,14 @@ def termOf (j : Json) : Specs.Term :=
   | "duration" => .duration (natF j "n") (unitOf (strF j "u"))
   | "cuda" => .cuda ((arrF j "items").map itemOf) (optNat (fld j "mult"))
   | _ => .cpu ((arrF j "items").map itemOf)
+
+def tokOf (j : Json) : Tok :=
+  match strF j "k" with
+  | "duration" => .kwDuration | "cuda" => .kwCuda | "cpu" => .kwCpu | "mem" => .kwMem | "cores" => .kwCores
+  | "(" => .lpar | ")" => .rpar | "," => .comma | "=" => .eq | "*" => .star | "&" => .amp | "|" => .bar
+  | "num" => .num (natF j "n")
+  | "memlit" => .memlit (natF j "n") (sfxOf (strF j "sfx"))
+  | _ => .unit (unitOf (strF j "u"))
 
 /-- a fresh heap holding `a` at address 0 and `b` at address 3. -/
 def heap2 (a b : Req) : Heap :=
@@ -59,6 +68,10 @@ def step (_ : Unit) (j : Json) : Unit × Json :=
     | "text" =>
       let alts := (arrF j "alts").map (fun c => (arr c).map termOf)
       (match evalAlt alts with
+       | some rs => Json.mkObj [("reqs", Json.arr (rs.map reqJ).toArray)]
+       | none => Json.mkObj [("reqs", Json.str "error")])
+    | "parse" =>   -- token-level grammar, then the visitor semantics
+      (match (parseToks ((arrF j "toks").map tokOf)).bind evalAlt with
        | some rs => Json.mkObj [("reqs", Json.arr (rs.map reqJ).toArray)]
        | none => Json.mkObj [("reqs", Json.str "error")])
     | op => Json.mkObj [("error", Json.str s!"bad-op {op}")]
